@@ -288,4 +288,52 @@ theorem names_bound {wb : Workbook} {ig : List Text} {m : M} (h : load wb ig = .
     rw [hb]; unfold boundTo; simp only [hc, this]; rfl
   · rw [hb]; unfold boundTo; simp only [hc]; rfl
 
+
+/-! ### Loading raises in three situations only -/
+
+/-- **load_total_partial.**  GOAL (full strength, refuted for this model and for the code, finding D1102):
+    `∀ wb ig, ∃ m, load wb ig = .ok m` — every workbook loads.  Counter-example below (`bangWb`): a sheet
+    whose name contains `!` makes `XLCell.__post_init__` raise ValueError.  Proved: loading succeeds
+    whenever no loaded sheet name contains `!`, no area name has two `!` and no area name is empty
+    (reversed corners). -/
+theorem load_total_partial (wb : Workbook) (ig : List Text)
+    (h1 : bangCrash wb ig = false) (h2 : rangeBangCrash (readDefinedNames wb) = false)
+    (h3 : emptyRangeCrash (buildDefinedNames (readCells wb ig) (readDefinedNames wb)) = false) :
+    ∃ m, load wb ig = .ok m := by
+  unfold load; simp [h1, h2, h3]
+
+/-- counter-example to the full-strength goal (D1102), kernel-checked. -/
+example : load Examples.bangWb [] = .error .valueError := by decide +kernel
+
+/-- the guards of `load_total_partial` are met by an ordinary workbook. -/
+example : bangCrash Examples.exWb [] = false ∧ rangeBangCrash (readDefinedNames Examples.exWb) = false ∧
+    emptyRangeCrash (buildDefinedNames (readCells Examples.exWb []) (readDefinedNames Examples.exWb)) = false := by
+  decide +kernel
+
+/-! ### the hypotheses of the theorems above are met by an ordinary workbook -/
+
+example : ∀ sh ∈ Examples.exWb.sheets, SheetWF sh := by decide +kernel
+example : ((cellEntries Examples.exWb []).map Prod.fst).Nodup := by decide +kernel
+example : ((readDefinedNames Examples.exWb).map Prod.fst).Nodup := by decide +kernel
+example : ∃ m, load Examples.exWb ["S2".toList] = .ok m :=
+  load_total_partial _ _ (by decide +kernel) (by decide +kernel) (by decide +kernel)
+/-- the member `B2` of the group whose master `A2` holds `A1+$A$1` shows `=B1+$A$1`. -/
+example : ((load Examples.exWb []).toOption.bind fun m => (dget m.cells "My Sheet!B2".toList).bind
+    fun c => c.formula.map (·.formula)) = some "=B1+$A$1".toList := by decide +kernel
+/-- `rng` covers `A1:B3`; the empty members get no cell from the name itself, but the formula on `S2`
+    refers to the same area, so `build_ranges` adds blank placeholders for `A3` and `B3`. -/
+example : ((load Examples.exWb []).toOption.map fun m => dkeys m.cells) = some
+    ["My Sheet!A1".toList, "My Sheet!B1".toList, "My Sheet!A2".toList, "My Sheet!B2".toList, "S2!A1".toList,
+     "My Sheet!A3".toList, "My Sheet!B3".toList] := by decide +kernel
+
+/-! ### D1101: a quoted sheet name keeps its doubled apostrophes -/
+
+/-- kernel-checked counter-example to "a defined name is bound to its cell" (finding D1101): the target
+    `'It''s'!$A$1` is normalised to `It''s!A1`, not to the address `It's!A1` of the stored cell, so the name
+    is dropped although the statement binds it. -/
+example : normAddress (targetText (.ref ⟨"It's".toList, true, true, ⟨1, 1⟩, true, none⟩)) = "It''s!A1".toList := by
+  decide +kernel
+example : ((load Examples.aposWb []).toOption.map fun m => dget m.names "ap".toList) = some none
+    ∧ Spec.C11.bindings Examples.aposWb [] = [("ap".toList, .cell "It's!A1".toList)] := by decide +kernel
+
 end XlVerif.Props.C11
